@@ -38,6 +38,7 @@ func buildFamily(family, tier string, seed int64) []*Scenario {
 		rep(n(3, 10), func(i int) []*Scenario {
 			return g.famMatrix("c"+string(rune('a'+i)), []string{"minlength", "maxlength", "length"}, []*TypeX{stringT}, 6, true)
 		})
+		out = append(out, g.famCombo("cz", n(12, 60), []string{"minlength", "maxlength", "length"})...)
 	case "c04":
 		rep(n(2, 6), func(i int) []*Scenario { return g.famMatrix("d"+string(rune('a'+i)), []string{"minitems", "maxitems"}, collTypes, 12, true) })
 	case "c05":
@@ -47,6 +48,9 @@ func buildFamily(family, tier string, seed int64) []*Scenario {
 		rep(n(2, 6), func(i int) []*Scenario {
 			return g.famMatrix("f"+string(rune('a'+i)), []string{"email", "url", "uuid", "alpha", "numeric", "ipv4", "ipv6"}, []*TypeX{stringT}, 7, true)
 		})
+		out = append(out, g.famCombo("fz", n(12, 60), []string{"email", "url", "uuid", "alpha", "numeric", "ipv4", "ipv6"})...)
+	case "c09":
+		out = g.famShapes("s", n(25, 100), n(6, 25))
 	case "c07", "random":
 		out = g.famRandom("r", n(24, 120), 8)
 	case "all":
